@@ -144,6 +144,11 @@ func ptrTo(v any) any {
 func (s *Spec) base() any {
 	switch s.K {
 	case "nil":
+		if s.R == "structptr" {
+			// a nil pointer to a struct: nil, as every nil pointer is
+			var p *dataStruct
+			return p
+		}
 		return nil
 	case "bool":
 		if s.R == "named" {
